@@ -401,7 +401,11 @@ func checkJpegFields(p *Program, r *Report) {
 	e := pr.E
 	u32 := types.Typ[types.Uint32]
 	// dataRuns decodes a field into (segment, index, lo, width) runs
-	type sr struct{ seg int; idx int64; lo, width, at int }
+	type sr struct {
+		seg           int
+		idx           int64
+		lo, width, at int
+	}
 	decode := func(f *Form) ([]sr, bool) {
 		bv := e.BVOf(f, u32)
 		var out []sr
